@@ -26,7 +26,7 @@ type Group struct {
 	Narrow  bool     // value-changing integer conversions must be provably exact (C13)
 }
 
-var safetyClasses = []string{"alloc", "index", "nil", "typeassert", "div", "shift", "panic", "pre", "auto-inv-init", "auto-inv-step", "auto-decreases", "decreases", "inv-init", "inv-step", "cover", "frame"}
+var safetyClasses = []string{"post", "unwind", "alloc", "index", "nil", "typeassert", "div", "shift", "panic", "pre", "auto-inv-init", "auto-inv-step", "auto-decreases", "decreases", "inv-init", "inv-step", "cover", "frame"}
 
 var allClasses []string // nil = everything
 
@@ -105,13 +105,13 @@ func init() {
 	reg(&PropSpec{ID: "C06", Title: "Segment round trip and v5 framing layout", DesignRef: "DESIGN.md §4 C06",
 		Groups: []Group{
 			{Funcs: `^crc\.(ChecksumKoopman|lemmaCrc24Len3|lemmaCrc24Len5)$`, OnlyCt: true},
-			{Funcs: `^\(\*segment\.codec\)\.(writeHeaderDataAndCrc|encodeHeaderUncompressed|encodeHeaderCompressed|writePayloadCrc|EncodeSegment|encodeSegmentUncompressed|decodeSegmentHeader|decodeSegmentPayload|DecodeSegment)$`},
+			{Funcs: `^\(\*segment\.codec\)\.(writeHeaderDataAndCrc|encodeHeaderUncompressed|encodeHeaderCompressed|writePayloadCrc|EncodeSegment|encodeSegmentUncompressed|encodeSegmentCompressed|decodeSegmentHeader|decodeSegmentPayload|DecodeSegment)$`},
 			{Funcs: `^segment\.lemmaHeaderRoundTrip(Uncompressed|Compressed)$`, OnlyCt: true},
 		},
 		Assume: []string{
 			"hash/crc32.Update is the standard CRC-32 state function of (state, bytes); crc.initialChecksum is that function applied to FA 2D 55 CA (package initialiser, not re-proved)",
 			"the reference CRC-24 routine crc24Ref is a literal transcription of org.apache.cassandra.net.Crc.crc24 (the v5 specification names the CRC but prints no code)",
-			"NOT covered: encodeSegmentCompressed (needs a bound on the compressor's output; the PayloadCompressor contract carries frame conditions only) and the LZ4 algorithm itself (C08); 'header bytes still in place after the payload and trailer were appended' inside encodeSegmentUncompressed is not stated at that level (solvers return unknown) - it follows from the append-only contracts of the callees, which are proved",
+			"ASSUMED, not proved: a PayloadCompressor appends at most 2n+16 bytes for n input bytes (LZ4's block bound n + n/255 + 16 is below that); the LZ4 algorithm itself and payload equality through compress/decompress are not covered (C08)",
 			"the uncompressed fallback is signalled by uncompressed-length 0 as the code and Cassandra's FrameEncoderLZ4 do; the prose of v5 spec 2.3.2 says 'compressed length 0' (DESIGN.md §4 C06)",
 		}})
 	reg(&PropSpec{ID: "C07", Title: "Corrupted segments are rejected, never delivered", DesignRef: "DESIGN.md §4 C07",
